@@ -30,6 +30,19 @@ CHECKS = {
             'Trusts the reference model; callback order inside one operation not compared; clear() and probes '
             'are issued only while enabled (dispatching is enabled first otherwise).',
             'DESIGN.md section 3 / C02'),
+    'C04': ('fault_enumeration',
+            'property-based testing (Hypothesis) of base histories + exhaustive enumeration of every (delivery '
+            'position, fault kind) per base history; trace-invariant oracle; deterministic line budget for '
+            'termination of the enabling assignment',
+            'For every generated base history every delivery position is combined with every fault kind '
+            '(RuntimeError, Quit, SwitchWorld, nested disable) and the run is closed with enable; enable. '
+            'Invariants over the callback log: nothing while disabled, never twice, dispatch order per '
+            'listener, completeness at every normally returning enable, exception identity, bounded enable. '
+            'Exhaustive in fault positions per history, sampled in histories.',
+            'Trusts the harness bookkeeping of which occurrences are pending; tolerates 0/1 further deliveries '
+            'of the occurrence in flight when the fault fired; payloads of one event compare equal but are '
+            'distinct objects; callbacks do not (un)register handlers.',
+            'DESIGN.md section 3 / C04'),
     'C05': ('exploration',
             'model-based stateful property testing (Hypothesis): histories weighted to deferred deletion + '
             'operations on the same id, sentinel processor observing the frame start, deterministic line '
